@@ -628,4 +628,43 @@ theorem execOr_binds (sig : Sig) : ∀ (ps : List CPat) (ns : List Nat) (t : Nat
       simp [srcDeltaOr, hm]
 end
 
+/-! ### temporaries: `binding_names` is injective and fresh, and an injective renaming preserves lookups -/
+
+theorem allocTemps_fst : ∀ (ns : List Nat) (c : Nat), (allocTemps ns c).map (fun b => b.1) = ns
+  | [], _ => rfl
+  | n :: ns, c => by simp [allocTemps, allocTemps_fst ns (c + 1)]
+
+theorem allocTemps_snd : ∀ (ns : List Nat) (c : Nat),
+    (allocTemps ns c).map (fun b => b.2) = List.range' c ns.length
+  | [], _ => rfl
+  | n :: ns, c => by simp [allocTemps, allocTemps_snd ns (c + 1), List.range'_succ]
+
+/-- every temporary handed out is fresh (≥ the counter, so different from every earlier temporary)
+and no two source names share one -/
+theorem allocTemps_fresh_injective (ns : List Nat) (c : Nat) :
+    (∀ b ∈ allocTemps ns c, c ≤ b.2 ∧ b.2 < c + ns.length) ∧
+    ((allocTemps ns c).map (fun b => b.2)).Nodup := by
+  constructor
+  · intro b hb
+    have : b.2 ∈ (allocTemps ns c).map (fun b => b.2) := List.mem_map.mpr ⟨b, hb, rfl⟩
+    rw [allocTemps_snd] at this
+    have := List.mem_range'_1.mp this
+    omega
+  · rw [allocTemps_snd]; exact List.nodup_range'
+
+theorem lookup_rename (bn : Nat → Nat) (x : Nat) : ∀ (d : Delta),
+    (∀ y w, (y, w) ∈ d → bn y = bn x → y = x) →
+    (renameDelta bn d).lookup (bn x) = d.lookup x
+  | [], _ => rfl
+  | (y, w) :: d, h => by
+    have ih := lookup_rename bn x d (fun y' w' hm => h y' w' (List.mem_cons_of_mem _ hm))
+    simp only [renameDelta, List.map_cons, List.lookup] at ih ⊢
+    by_cases hxy : x = y
+    · subst hxy; simp
+    · have hne : ¬ bn x = bn y := fun heq => hxy (h y w List.mem_cons_self heq.symm).symm
+      have h1 : (bn x == bn y) = false := by simpa using hne
+      have h2 : (x == y) = false := by simpa using hxy
+      simp only [h1, h2]
+      exact ih
+
 end SamVerif.MatchLower
